@@ -64,7 +64,5 @@ DeltaPrograms ==
   {[funcs |-> NoFuncs, glyph |-> <<I("PUSH", v), I("P1", s), I("PUSH", a), I("PUSH", b), I("PUSH", 1), I("P3", d)>>] :
      v \in {-1, -2, MinI, 0, 6, 7, 100, MaxI}, s \in {95, 94}, a \in {120, 127, 1}, b \in {120, 127, 1}, d \in {115, 116, 117, 93, 113, 114}}
 ProgramsArith == ArithPrograms \cup OperandPrograms \cup DeltaPrograms
-ProgramsThorough == ProgramsQuick \cup {[funcs |-> <<b1, b2>>, glyph |-> g] : b1 \in {<<I("PUSH", 1)>>, <<I("POP", 0)>>}, b2 \in {<<>>}, g \in SeqsUpTo(Alphabet, 4)}
-
 Dump == (status # "run") => PrintT(<<"PROG", ToJson([funcs |-> p.funcs, glyph |-> p.glyph, outcome |-> status, steps |-> steps])>>)
 =============================================================================
